@@ -117,6 +117,14 @@ CHECKS.update({
     ),
 })
 
+CHECKS.update({
+    "C11": dict(
+        technique="model-based property testing: generated fixed-size unions and assignment histories checked against a one-bytearray reference model (decode of every member view and reference encoding of the assigned member) after every step",
+        text="generated unions (scalar/array/nested struct/anonymous struct/nested union/bit-field members, packed and aligned, top-level and embedded) x contents x histories of whole-member, nested-path, anonymous-field and keyword assignments and re-parses; after every step all member views must equal the reference decode of one shared buffer, the assigned member's bytes must be exactly its reference encoding, size == consumed == max member size rounded to the alignment, and dumps must reproduce the buffer on data-carrying bits (the recorded union-writer finding is judged against a writer-faithful model)",
+        design_ref="DESIGN.md §4 C11",
+    ),
+})
+
 NOT_YET = {}
 
 
